@@ -115,3 +115,37 @@ pub fn bytes_of(v: &J) -> Vec<u8> {
 }
 
 pub fn jbytes(b: &[u8]) -> J { J::Array(b.iter().map(|x| json!(*x)).collect()) }
+
+
+/// Streams an ndjson file in chunks through `run` and merges the per-chunk reports (see Report::finish).
+pub fn replay_chunked<F: Fn(&Vec<J>) -> J>(path: &str, chunk: usize, run: F) -> J {
+    let f = std::fs::File::open(path).unwrap_or_else(|e| { eprintln!("cannot open {}: {}", path, e); std::process::exit(2) });
+    let mut merged: Option<J> = None;
+    let mut buf: Vec<J> = Vec::new();
+    let mut flush = |buf: &mut Vec<J>, merged: &mut Option<J>| {
+        if buf.is_empty() && merged.is_some() { return; }
+        let r = run(buf);
+        buf.clear();
+        match merged {
+            None => { *merged = Some(r); }
+            Some(m) => {
+                for k in ["cases", "n_mismatch", "distinct_nontrivial"] { m[k] = json!(m[k].as_u64().unwrap_or(0) + r[k].as_u64().unwrap_or(0)); }
+                let mm = m["mismatches"].as_array_mut().unwrap();
+                for x in r["mismatches"].as_array().unwrap() { if mm.len() < 20 { mm.push(x.clone()); } }
+                let ss = m["samples"].as_array_mut().unwrap();
+                for x in r["samples"].as_array().unwrap() { if ss.len() < 5 { ss.push(x.clone()); } }
+                for (d, w) in r["dev_witnesses"].as_object().unwrap() { if m["dev_witnesses"].get(d).is_none() { m["dev_witnesses"][d] = w.clone(); } }
+                for (c, n) in r["counters"].as_object().unwrap() { let old = m["counters"][c].as_u64().unwrap_or(0); m["counters"][c] = json!(old + n.as_u64().unwrap_or(0)); }
+            }
+        }
+    };
+    for l in BufReader::new(f).lines() {
+        let l = l.unwrap();
+        if l.trim().is_empty() { continue; }
+        PROGRESS.fetch_add(1, Ordering::SeqCst);        // reading counts as progress for the watchdog
+        buf.push(serde_json::from_str(&l).unwrap_or_else(|e| { eprintln!("bad json line {}: {}", l, e); std::process::exit(2) }));
+        if buf.len() >= chunk { flush(&mut buf, &mut merged); }
+    }
+    flush(&mut buf, &mut merged);
+    merged.unwrap()
+}
